@@ -682,7 +682,7 @@ def check_g(ctx, facts, tier, seed, sm=None):
                             break
                         if v is not None:
                             D.clock()
-                            vb.posedge({c for _, c in vb.clocks()})
+                            vb.posedge(vb.driven_clocks())
                     if viol:
                         break
         except Nondet:
